@@ -150,7 +150,9 @@ def existing (s : State) (m : Msg) : Option Lease :=
 def circuitHit (s : State) (m : Msg) : Bool :=
   (AMap.lookup s.leases m.mac).isNone && (existing s m).isSome
 
-/-- handleDiscover -/
+/-- handleDiscover.  The requested-address option (50) of a DISCOVER is never read: `m.requested` does not occur
+    below (the local-pool path is `pool.Allocate(mac)`, which returns the MAC's current binding — also the binding of
+    an expired lease the sweep has not removed yet — or the head of the free list). -/
 def discover (s : State) (m : Msg) : State × Reply :=
   let fresh : State × Reply :=
     match s.cfg.nexusLookup m.mac with
